@@ -34,6 +34,8 @@ type Case struct {
 	// Preview: before the File is rendered, a detached snippet that calls into C is rendered as a
 	// fragment with RenderWithFile(w, file), and the File is rendered twice.
 	Preview bool `json:"preview,omitempty"`
+	// FailFirst: the File's first render goes into a writer that fails; the second render is what is checked.
+	FailFirst bool `json:"failfirst,omitempty"`
 }
 
 func (c Case) scenario(noFormat bool) imps.Scenario {
@@ -174,6 +176,10 @@ func commentsBeforeCImport(src []byte) ([]string, error) {
 	return nil, fmt.Errorf("no `import \"C\"` declaration of its own")
 }
 
+type failingWriter struct{}
+
+func (failingWriter) Write(p []byte) (int, error) { return 0, fmt.Errorf("writer fails") }
+
 // renderLate builds the scenario without its preamble, renders it once, supplies the preamble
 // blocks and renders again.
 func renderLate(c Case, noFormat bool) ([]byte, error) {
@@ -194,6 +200,7 @@ func renderLate(c Case, noFormat bool) ([]byte, error) {
 			_ = jen.Qual("C", "zzpreview").Call(jen.Lit(1)).RenderWithFile(&bytes.Buffer{}, f)
 		}()
 	}
+	_ = f.Render(failingWriter{}) // a render that fails at the very end: nothing of it may stick
 	_ = f.Render(&bytes.Buffer{})
 	for i := range late {
 		recipe.ApplyFileOp(f, &late[i])
@@ -209,7 +216,7 @@ func check(c Case) error {
 	sc := c.scenario(c.NoFormat)
 	var o *imps.Outcome
 	var err error
-	if c.Late || c.Preview {
+	if c.Late || c.Preview || c.FailFirst {
 		o = &imps.Outcome{Model: imps.ModelOf(&sc.File), Markers: sc.Markers()}
 		src, rerr := renderLate(c, c.NoFormat)
 		if rerr != nil {
@@ -354,6 +361,12 @@ func TestC19(t *testing.T) {
 									hx.One(r, ck, late)
 									r.Class("preamble_after_first_render")
 								}
+								if n%3 == 2 {
+									ff := c
+									ff.FailFirst = true
+									hx.One(r, ck, ff)
+									r.Class("first_render_into_failing_writer")
+								}
 								if n%4 == 1 {
 									pv := c
 									pv.Preview = true
@@ -391,6 +404,7 @@ func TestC19(t *testing.T) {
 		}
 		c.Late = rapid.IntRange(0, 3).Draw(rt, "late") == 0
 		c.Preview = rapid.IntRange(0, 3).Draw(rt, "preview") == 0
+		c.FailFirst = rapid.IntRange(0, 3).Draw(rt, "failfirst") == 0
 		c.NoFormat = rapid.IntRange(0, 3).Draw(rt, "noformat") == 0
 		r.Class("random_text")
 		r.NonTrivial(fmt.Sprintf("%+v", c))
